@@ -1,9 +1,10 @@
 (* C16 — Forwarding headers are trusted only from trusted proxies.
    Only statements here; proofs are in proofs/RealIP_proofs.v.
 
-   Every theorem below is universally quantified over the two library
-   functions that are not modelled, parse_ip (net.ParseIP) and split_host_port
-   (net.SplitHostPort): they hold whatever these functions answer.  Where a
+   Every theorem below is universally quantified over the library functions
+   that are not modelled, parse_ip (net.ParseIP), split_host_port
+   (net.SplitHostPort) and - where configuration strings are read - parse_cidr
+   (net.ParseCIDR): they hold whatever these functions answer.  Where a
    hypothesis on them is needed it is `oracle_sane`: the empty string is not
    an address and does not split. *)
 From Coq Require Import List NArith Bool String Ascii.
@@ -120,9 +121,45 @@ Proof. exact stats_gate_direct. Qed.
 
 (* The whole property as the trace predicate, for every list of requests. *)
 Theorem C16_model_satisfies_P :
-  forall parse_ip split_host_port, oracle_sane parse_ip split_host_port ->
-  forall ops, P_C16 parse_ip split_host_port (trace_of parse_ip split_host_port ops) = true.
+  forall parse_ip split_host_port parse_cidr, oracle_sane parse_ip split_host_port ->
+  forall ops, P_C16 parse_ip split_host_port parse_cidr (trace_of parse_ip split_host_port parse_cidr ops) = true.
 Proof. exact model_satisfies_P. Qed.
+
+(* ---- configuration strings (app.trustedproxies, stats.allowed_ips) ------------
+   The model's ParseAllowedIps / parseIPNet is the reading "comma separated
+   addresses and subnets, blanks and empty entries ignored, anything else
+   refused" of corr/Run_C16.v. *)
+Theorem C16_config_reading : forall parse_ip parse_cidr cfg,
+  parse_allowed parse_ip parse_cidr cfg = spec_nets parse_ip parse_cidr cfg.
+Proof. exact parse_allowed_spec. Qed.
+
+(* An entry without a prefix length matches exactly that address: membership in
+   the parsed list is "equal to an address entry or inside a subnet entry". *)
+Theorem C16_bare_entry_exact : forall b a, wf_ip b -> wf_ip a ->
+  (contains (full_net b) a = true <-> a = b).
+Proof. exact bare_entry_exact. Qed.
+Theorem C16_configured_iff : forall parse_ip parse_cidr,
+  (forall s b, parse_ip s = Some b -> wf_ip b) ->
+  forall cfg l a, wf_ip a -> parse_allowed parse_ip parse_cidr cfg = Some l ->
+  allowed l a = configured parse_ip parse_cidr cfg a.
+Proof.
+  intros pi pc Hwf cfg l a Ha H. rewrite allowed_on_list. rewrite parse_allowed_spec in H.
+  exact (on_list_entries pi pc Hwf cfg l a Ha H).
+Qed.
+
+(* A direct client of a hub whose trusted proxies are configured by the text
+   cfg (empty: the default list) keeps its socket address whatever it sends. *)
+Theorem C16_config_direct_client : forall parse_ip split_host_port parse_cidr cfg t peer xr xff,
+  hub_trusted parse_ip parse_cidr cfg = Some t ->
+  untrusted_peer parse_ip split_host_port (Some t) peer ->
+  step parse_ip split_host_port parse_cidr (OCfgHub cfg peer xr xff) = VAddr (strip_port split_host_port peer).
+Proof. exact cfg_direct_client. Qed.
+
+(* What a mask of the wrong length does (an IPv6 entry given the /32 of an IPv4
+   address): every address that shares its first 32 bits is on the list. *)
+Theorem C16_short_mask_refuted : forall b a, wf_ip (V6 b) -> wf_ip (V6 a) ->
+  N.shiftr b 96 = N.shiftr a 96 -> contains (V6 b, 32%N) (V6 a) = true.
+Proof. exact short_mask_matches_neighbours. Qed.
 
 (* CIDR arithmetic: the mask test of net.IPNet.Contains is equality of the top
    `len` bits — as quotient/remainder, as shifts, bit by bit. *)
@@ -161,6 +198,8 @@ Definition ex_parse : string -> option ip :=
 Definition ex_split : string -> option string :=
   lookup [("8.8.8.8:4711", "8.8.8.8"); ("10.0.0.5:80", "10.0.0.5"); ("127.0.0.1:9", "127.0.0.1")].
 
+Definition ex_cidr : string -> option net := lookup [("192.168.0.0/16", (V4 3232235520, 16%N))].
+
 Example C16_ex_oracle_sane : oracle_sane ex_parse ex_split.
 Proof. split; reflexivity. Qed.
 
@@ -184,7 +223,7 @@ Example C16_ex_trusted :
   real_ip ex_parse ex_split (Some default_trusted) "10.0.0.5:80" ["garbage"; "6.6.6.6"] ["127.0.0.1, 192.168.1.50"] = "127.0.0.1" /\
   real_ip ex_parse ex_split (Some default_trusted) "10.0.0.5:80" ["6.6.6.6"] ["8.8.8.8"] = "6.6.6.6" /\
   real_ip ex_parse ex_split (Some default_trusted) "10.0.0.5:80" [] ["unknown"] = "10.0.0.5" /\
-  P_C16 ex_parse ex_split (trace_of ex_parse ex_split
+  P_C16 ex_parse ex_split ex_cidr (trace_of ex_parse ex_split ex_cidr
      [ORealIP (Some default_trusted) "10.0.0.5:80" [] ["6.6.6.6, 8.8.8.8"];
       OStats 2 default_trusted default_stats_allowed "10.0.0.5:80" [] ["127.0.0.1"]]) = true.
 Proof. vm_compute. repeat split; reflexivity. Qed.
@@ -192,11 +231,34 @@ Proof. vm_compute. repeat split; reflexivity. Qed.
 (* the predicate is not trivially true: a server that believed the header of a
    direct client would violate it *)
 Example C16_ex_P_rejects :
-  P_C16 ex_parse ex_split
+  P_C16 ex_parse ex_split ex_cidr
     [(ORealIP (Some default_trusted) "8.8.8.8:4711" ["127.0.0.1"] [], VAddr "127.0.0.1")] = false /\
-  P_C16 ex_parse ex_split
+  P_C16 ex_parse ex_split ex_cidr
     [(OStats 0 default_trusted default_stats_allowed "8.8.8.8:4711" [] ["127.0.0.1"], VStatus 200)] = false.
 Proof. vm_compute. split; reflexivity. Qed.
+
+(* configuration strings: a single IPv6 address trusts that address only; the
+   predicate rejects a server that trusts its neighbour in the same /32, and a
+   server that lets the neighbour through the gate *)
+Definition ex_parse6 : string -> option ip :=
+  lookup [("2001:db8::1", V6 42540766411282592856903984951653826561);
+          ("2001:db8:1234::5", V6 42540766416916187176308156905784606725);
+          ("127.0.0.1", V4 2130706433)].
+Definition ex_split6 : string -> option string :=
+  lookup [("[2001:db8::1]:443", "2001:db8::1"); ("[2001:db8:1234::5]:443", "2001:db8:1234::5")].
+Example C16_ex_config :
+  parse_allowed ex_parse6 ex_cidr " 2001:db8::1 ,, 192.168.0.0/16" =
+    Some [(V6 42540766411282592856903984951653826561, 128%N); (V4 3232235520, 16%N)] /\
+  parse_allowed ex_parse6 ex_cidr "2001:db8::1, nonsense" = None /\
+  step ex_parse6 ex_split6 ex_cidr (OCfgHub "2001:db8::1" "[2001:db8::1]:443" ["127.0.0.1"] []) = VAddr "127.0.0.1" /\
+  step ex_parse6 ex_split6 ex_cidr (OCfgHub "2001:db8::1" "[2001:db8:1234::5]:443" ["127.0.0.1"] []) = VAddr "2001:db8:1234::5" /\
+  P_C16 ex_parse6 ex_split6 ex_cidr
+    [(OCfgHub "2001:db8::1" "[2001:db8:1234::5]:443" ["127.0.0.1"] [], VAddr "127.0.0.1")] = false /\
+  P_C16 ex_parse6 ex_split6 ex_cidr
+    [(OCfgStats 0 "" "2001:db8::1" "[2001:db8:1234::5]:443" [] [], VStatus 200)] = false /\
+  P_C16 ex_parse6 ex_split6 ex_cidr
+    [(OCfgAllowed "2001:db8::1" (V6 42540766416916187176308156905784606725), VBool true)] = false.
+Proof. vm_compute. repeat split; reflexivity. Qed.
 
 Print Assumptions C16_untrusted_peer_ignores_headers.
 Print Assumptions C16_direct_client_cannot_spoof.
@@ -209,6 +271,11 @@ Print Assumptions C16_result_is_address.
 Print Assumptions C16_stats_gate_iff.
 Print Assumptions C16_stats_gate_direct.
 Print Assumptions C16_model_satisfies_P.
+Print Assumptions C16_config_reading.
+Print Assumptions C16_bare_entry_exact.
+Print Assumptions C16_configured_iff.
+Print Assumptions C16_config_direct_client.
+Print Assumptions C16_short_mask_refuted.
 Print Assumptions C16_contains_top_bits.
 Print Assumptions C16_contains_prefix.
 Print Assumptions C16_contains_bits.
